@@ -737,6 +737,19 @@ func (w *World) registerStd() {
 		e.assume(e.tb.mk("=", SBool, e.tb.mk("bv2fp64", SFP(64), b), f))
 		return b
 	})
+	w.reg("math.Float64frombits", func(e *Exec, fn *ssa.Function, a []Value) Value {
+		b := a[0].(*Term)
+		if c, ok := e.concInt(b, niUint64); ok {
+			return e.tb.FP(64, mathFloat64frombits(uint64(c)))
+		}
+		if b.Const && b.I != nil {
+			return e.tb.FP(64, mathFloat64frombits(b.I.Uint64()))
+		}
+		if e.mode == "lia" {
+			e.ooe("Float64frombits of symbolic bits in lia mode")
+		}
+		return e.tb.mk("bv2fp64", SFP(64), b)
+	})
 	w.reg("math.Abs", func(e *Exec, fn *ssa.Function, a []Value) Value {
 		f := a[0].(*Term)
 		if f.Const {
